@@ -119,8 +119,6 @@ Proof.
 Qed.
 
 (* ---------------- GC content ---------------- *)
-Definition cc (u : bool) (c : byte) : byte :=
-  if u then (let d := trans1 (if byte_eqb c cU then cT else c) in if byte_eqb d cT then cU else d) else trans1 c.
 Lemma complement_as_map s : complement s = map (cc (has cU s)) s.
 Proof.
   unfold complement, cc, t2u, u2t, replace1, py_translate. destruct (has cU s); rewrite ?map_map; reflexivity.
